@@ -100,6 +100,9 @@ def main():
     files = digest_workspace(trial["ws"], mask)
     rec = {"status": status, "detail": mask(detail), "stdio_sha": hashlib.sha256(stdio.encode()).hexdigest(), "stdio_tail": stdio[-600:],
            "files": files}
+    cs = getattr(_patch_clock, "state", None)
+    if cs is not None:
+        rec["clock"] = {"reads": cs["calls"], "simulated_seconds": cs["now"]}
     with open(out_path + ".tmp", "w") as f:
         json.dump(rec, f)
     os.replace(out_path + ".tmp", out_path)
